@@ -13,14 +13,13 @@ theorem pow_accept_iff (compact hash : Nat) :
 theorem lor_eq_add {a b k : Nat} (hb : b < 2 ^ k) : (a * 2 ^ k) ||| b = a * 2 ^ k + b := by
   rw [← Nat.shiftLeft_eq, Nat.shiftLeft_add_eq_or_of_lt hb]
 
-set_option maxRecDepth 8000 in
 theorem enfPack_eq {n i l : Nat} (hn : n < 2 ^ EPOCH_NUMBER_BITS) (hi : i < 2 ^ EPOCH_INDEX_BITS) (hl : l < 2 ^ EPOCH_LENGTH_BITS) :
     enfPack n i l = l * 2 ^ 40 + i * 2 ^ 24 + n := by
   unfold enfPack LENGTH_OFFSET INDEX_OFFSET NUMBER_OFFSET U64
   simp only [EPOCH_NUMBER_BITS, EPOCH_INDEX_BITS, EPOCH_LENGTH_BITS, Nat.pow_zero, Nat.mul_one, Nat.reduceAdd] at *
-  have h1 : l * 2 ^ 40 % 2 ^ 64 = l * 2 ^ 40 := by omega
-  have h2 : i * 2 ^ 24 % 2 ^ 64 = i * 2 ^ 24 := by omega
-  have h3 : n % 2 ^ 64 = n := by omega
+  have h1 : l * 2 ^ 40 % 2 ^ 64 = l * 2 ^ 40 := Nat.mod_eq_of_lt (by omega)
+  have h2 : i * 2 ^ 24 % 2 ^ 64 = i * 2 ^ 24 := Nat.mod_eq_of_lt (by omega)
+  have h3 : n % 2 ^ 64 = n := Nat.mod_eq_of_lt (by omega)
   have h4 : i * 2 ^ 24 < 2 ^ 40 := by omega
   rw [h1, h2, h3, lor_eq_add h4]
   have h5 : l * 2 ^ 40 + i * 2 ^ 24 = (l * 2 ^ 16 + i) * 2 ^ 24 := by omega
